@@ -2,17 +2,20 @@ import TracklibVerif.Lemmas.Geo
 import TracklibVerif.Lemmas.GeoTrack
 import TracklibVerif.Lemmas.GeoLambert
 import TracklibVerif.Lemmas.GeoLambertConv
+import TracklibVerif.Lemmas.GeoHeap
 /-! # C14 — coordinate conversions round-trip and agree with the WGS84 ellipsoid
 
-Property theorems only (helpers: `Lemmas/Geo.lean`, `Lemmas/GeoTrack.lean`, `Lemmas/GeoLambert.lean`, `Lemmas/GeoLambertConv.lean`). They are about the
-model `Model/Geo.lean` (the operations of `tracklib/core/obs_coords.py` and of `Track.to*Coords`, in the same order),
-instantiated at `ℝ` with Mathlib's functions: `realTrig` = `Real.sin, Real.cos, Real.tan, Real.arctan, Real.sqrt, Real.log,
+Property theorems only (helpers: `Lemmas/Geo.lean`, `Lemmas/GeoTrack.lean`, `Lemmas/GeoLambert.lean`, `Lemmas/GeoLambertConv.lean`,
+`Lemmas/GeoHeap.lean`). They are about the model `Model/Geo.lean` (the operations of `tracklib/core/obs_coords.py` and of
+`Track.to*Coords`, in the same order) and, from T12 on, about `Model/GeoHeap.lean` (the same methods called on shared,
+mutable objects: identity, aliasing, in-place updates, `Track` holding references), instantiated at `ℝ` with Mathlib's functions: `realTrig` = `Real.sin, Real.cos, Real.tan, Real.arctan, Real.sqrt, Real.log,
 Real.exp`, `pow = Real.rpow`, `atan2 y x = Complex.arg (x + i y)`, `pi = Real.pi`. Angles of `V3` values are in degrees,
 as in the Python. Everything about the local frame holds for *any* `Trig ℝ` whose `sin`/`cos` satisfy `sin² + cos² = 1`
 (`Pyth T`), and is stated that way. IEEE rounding is outside these statements (sampled by the transfer check).
 
 What has no exact identity and is therefore not a theorem: `ECEFCoords.toGeoCoords` for `h ≠ 0` (Bowring's one-step formula
-is an approximation, about 1.3 µm at 10 km); see the `_partial` theorems. -/
+is an approximation, about 1.3 µm at 10 km); see the `_partial` theorems and `geo_ecef_geo_residual` (T5'), which reduces the
+round trip at every height, longitude and base to two explicit functions of (latitude, height) that the harness bounds on a grid. -/
 namespace TV.C14
 open TV.Geo Real
 
@@ -77,8 +80,9 @@ theorem lon_recovered (g : V3 ℝ) (hlon1 : -180 < g.x) (hlon2 : g.x ≤ 180) (h
 
 /-- T5 (partial) On the ellipsoid (`h = 0`) the closed-form inverse `ECEFCoords.toGeoCoords` is exact: longitude,
 latitude and height all come back. Together with T4 this is the exact part of Geo → ECEF → Geo.
-MISSING: latitude and height for `h ≠ 0`. There Bowring's one-step formula is an approximation (no identity to prove);
-the bound 1e-9° / 1 mm for −1 km ≤ h ≤ 10 km rests on the correspondence and transfer checks. -/
+MISSING: latitude and height for `h ≠ 0`. There Bowring's one-step formula is an approximation (no identity to prove):
+T5' (`geo_ecef_geo_residual`) states what does hold exactly; the bound 1e-9° / 1 mm for −1 km ≤ h ≤ 10 km rests on the
+numerical evaluation of the residual functions of T5' (stream `resid`) and on the correspondence and transfer checks. -/
 theorem geo_ecef_geo_partial (g : V3 ℝ) (hlon1 : -180 < g.x) (hlon2 : g.x ≤ 180) (hlat1 : -90 < g.y) (hlat2 : g.y < 90)
     (h0 : g.z = 0) : ecefToGeo realTrig (geoToEcef realTrig g) = g :=
   ecefToGeo_geoToEcef_h0' g hlon1 hlon2 hlat1 hlat2 h0
@@ -171,6 +175,164 @@ theorem lambert_round_trip (g : V3 ℝ) (hx1 : -90 < g.x) (hx2 : g.x < 90) (hy1 
     ∧ (fromLambert93 realTrig (toLambert93 realTrig g)).z = g.z :=
   ⟨lambert_lon' g hx1 hx2, lambert_lat_converges' g hy1 hy2, lambert_lat_bound' g hy1 hy2, rfl⟩
 
+
+/-! ### every height: the exact part of Geo → ECEF → Geo, and what is left to bound -/
+
+/-- T5' Geo → ECEF → Geo for *every* height above −6378137 m (longitudes in (−180°, 180°], latitudes in (−90°, 90°)):
+* the longitude comes back exactly, and the latitude (radians) and height that come back are the explicit functions
+  `bowringLat`, `bowringHgt` (`Lemmas/Geo.lean`: Bowring's one-step formula as coded) of the meridian-plane coordinates
+  `p = (N + h) cos φ`, `z = ((1 − e²) N + h) sin φ` of the point: they do not depend on the longitude;
+* hence they are the values `meridianRoundTrip` computes at longitude 0 — the function the driver evaluates on a dense
+  (latitude, height) grid (stream `resid` of the harness), which bounds the residual numerically for all longitudes at once;
+* if the latitude comes back exactly, so does the height;
+* on the ellipsoid the latitude residual is zero (T5).
+MISSING (why the property's bound is still `_partial`): an analytic bound on `|bowringLat (p, z) − φ|` for `h ≠ 0`. It
+is about 2e-13 rad at 10 km (third order in `e² h / a`); proving it needs second-order control of `atan2` compositions. -/
+theorem geo_ecef_geo_residual (g : V3 ℝ) (hlon1 : -180 < g.x) (hlon2 : g.x ≤ 180) (hlat1 : -90 < g.y) (hlat2 : g.y < 90)
+    (hh : -6378137 < g.z) :
+    ecefToGeo realTrig (geoToEcef realTrig g) =
+        ⟨g.x, bowringLat (merP (g.y * π / 180) g.z) (merZ (g.y * π / 180) g.z) * (180 / π),
+          bowringHgt (merP (g.y * π / 180) g.z) (merZ (g.y * π / 180) g.z)⟩
+    ∧ ((ecefToGeo realTrig (geoToEcef realTrig g)).y, (ecefToGeo realTrig (geoToEcef realTrig g)).z)
+        = meridianRoundTrip realTrig g.y g.z
+    ∧ (bowringLat (merP (g.y * π / 180) g.z) (merZ (g.y * π / 180) g.z) = g.y * π / 180 →
+        bowringHgt (merP (g.y * π / 180) g.z) (merZ (g.y * π / 180) g.z) = g.z)
+    ∧ bowringLat (merP (g.y * π / 180) 0) (merZ (g.y * π / 180) 0) = g.y * π / 180 :=
+  ⟨geo_ecef_geo_residual' g hlon1 hlon2 hlat1 hlat2 hh, meridianRoundTrip_eq g hlon1 hlon2 hlat1 hlat2 hh,
+   bowringHgt_of_lat _ _ (by nlinarith [Real.pi_pos]) (by nlinarith [Real.pi_pos]),
+   bowringLat_h0 _ (by nlinarith [Real.pi_pos]) (by nlinarith [Real.pi_pos])⟩
+
+/-- T6'' the same through a local frame, for every base of either class and every height: Geo → ENU → Geo returns the
+longitude exactly and the same two residual functions of (latitude, height) as Geo → ECEF → Geo — the base does not
+enter the result at all. -/
+theorem geo_enu_geo_residual (g : V3 ℝ) (b : Base ℝ) (hlon1 : -180 < g.x) (hlon2 : g.x ≤ 180) (hlat1 : -90 < g.y)
+    (hlat2 : g.y < 90) (hh : -6378137 < g.z) :
+    enuToGeo realTrig (geoToEnu realTrig g b) b =
+      ⟨g.x, bowringLat (merP (g.y * π / 180) g.z) (merZ (g.y * π / 180) g.z) * (180 / π),
+        bowringHgt (merP (g.y * π / 180) g.z) (merZ (g.y * π / 180) g.z)⟩ := by
+  rw [enuToGeo_geoToEnu' realTrig pyth_real g b]
+  exact geo_ecef_geo_residual' g hlon1 hlon2 hlat1 hlat2 hh
+
+/-! ### histories: shared, mutable coordinate objects (`Model/GeoHeap.lean`) -/
+
+/-- T12 Conversions do not modify their argument, their base or anything else: every step of a history other than an
+in-place update (`setX/setY/setZ`, attribute assignment) leaves all existing objects as they are — the heap only grows —
+and an in-place update changes the one coordinate of the one object, and no track. -/
+theorem history_frame (T : Trig ℝ) (w w' : World ℝ) (op : Op ℝ) (h : w.step T op = .ok w') :
+    ((∀ i c x, op ≠ .set i c x) → ∃ l, w'.heap = w.heap ++ l)
+    ∧ (∀ i c x, op = .set i c x →
+        ∃ o, w.heap[i]? = some o ∧ w'.heap = w.heap.set i ⟨o.kind, o.v.set c x⟩ ∧ w'.tracks = w.tracks) := by
+  refine ⟨step_frame T w w' op h, ?_⟩
+  intro i c x hop
+  subst hop
+  exact set_spec w w' i c x h
+
+/-- T13 A conversion called on an object of the heap, with bases passed as references (or SRID numbers), allocates the
+result of the pure conversion of `Model/Geo.lean` applied to the values the point and the base(s) hold *in the world the
+call is made in* (`valArg w.heap` reads the base through the heap): nothing is remembered from earlier calls. Conversions to
+the class the object already has return a copy. -/
+theorem call_current_values (T : Trig ℝ) (w : World ℝ) (i : Nat) (o : Obj ℝ) (ho : w.heap[i]? = some o)
+    (b : Val) (a : BaseArg ℝ) (hb : valArg w.heap b = some (some a)) :
+    (o.kind = .geo →
+      w.call T i .enu [b] = (geoToEnuArg T o.v a).map (fun v => { w with heap := w.heap ++ [⟨.enu, v⟩] })
+      ∧ w.call T i .ecef [] = .ok { w with heap := w.heap ++ [⟨.ecef, geoToEcef T o.v⟩] }
+      ∧ w.call T i .geo [] = .ok { w with heap := w.heap ++ [⟨.geo, o.v⟩] })
+    ∧ (o.kind = .ecef →
+      w.call T i .enu [b] = (ecefToEnuArg T o.v a).map (fun v => { w with heap := w.heap ++ [⟨.enu, v⟩] })
+      ∧ w.call T i .geo [] = .ok { w with heap := w.heap ++ [⟨.geo, ecefToGeo T o.v⟩] }
+      ∧ w.call T i .ecef [] = .ok { w with heap := w.heap ++ [⟨.ecef, o.v⟩] })
+    ∧ (o.kind = .enu →
+      w.call T i .ecef [b] = (enuToEcefArg T o.v a).map (fun v => { w with heap := w.heap ++ [⟨.ecef, v⟩] })
+      ∧ w.call T i .geo [b] = (enuToGeoArg T o.v a).map (fun v => { w with heap := w.heap ++ [⟨.geo, v⟩] })
+      ∧ ∀ b2 a2, valArg w.heap b2 = some (some a2) →
+          w.call T i .enu [b, b2] = (enuToEnuArg T o.v a a2).map (fun v => { w with heap := w.heap ++ [⟨.enu, v⟩] })) := by
+  have mm : ∀ {β γ δ : Type} (x : Except Err β) (f : β → γ) (g : γ → δ), (x.map f).map g = x.map (fun v => g (f v)) := by
+    intro β γ δ x f g; cases x <;> rfl
+  refine ⟨fun hk => ⟨?_, ?_, ?_⟩, fun hk => ⟨?_, ?_, ?_⟩, fun hk => ⟨?_, ?_, ?_⟩⟩
+  · rw [call_eq T w i o ho, callConv_geo_enu T _ o hk b a hb, mm]
+  · rw [call_eq T w i o ho, callConv_geo_ecef T _ o hk]; rfl
+  · rw [call_eq T w i o ho]; simp only [callConv, hk]; rfl
+  · rw [call_eq T w i o ho, callConv_ecef_enu T _ o hk b a hb, mm]
+  · rw [call_eq T w i o ho, callConv_ecef_geo T _ o hk]; rfl
+  · rw [call_eq T w i o ho]; simp only [callConv, hk]; rfl
+  · rw [call_eq T w i o ho, callConv_enu_ecef T _ o hk b a hb, mm]
+  · rw [call_eq T w i o ho, callConv_enu_geo T _ o hk b a hb, mm]
+  · intro b2 a2 hb2
+    rw [call_eq T w i o ho, callConv_enu_enu T _ o hk b b2 a a2 hb hb2, mm]
+
+/-- T13' in particular: the caller updates his base object in place, then converts with it — the conversion is the one
+about the *updated* base. -/
+theorem update_then_convert (T : Trig ℝ) (w : World ℝ) (p b : Nat) (hpb : p ≠ b) (g c : V3 ℝ)
+    (hp : w.heap[p]? = some ⟨.geo, g⟩) (hb : w.heap[b]? = some ⟨.geo, c⟩) (k : Nat) (x : ℝ) :
+    (w.set b k x).bind (fun w2 => w2.call T p .enu [.ref b])
+      = .ok ⟨w.heap.set b ⟨.geo, c.set k x⟩ ++ [⟨.enu, geoToEnu T g (.geo (c.set k x))⟩], w.tracks⟩ := by
+  have hbl : b < w.heap.length := (List.getElem?_eq_some_iff.mp hb).1
+  simp only [World.set, hb, Except.bind]
+  have hp2 : (w.heap.set b ⟨.geo, c.set k x⟩)[p]? = some ⟨.geo, g⟩ := by
+    rw [getElem?_set_old _ _ _ _ hpb]; exact hp
+  have hb2 : valArg (w.heap.set b ⟨.geo, c.set k x⟩) (.ref b) = some (some (.pt (.geo (c.set k x)))) := by
+    simp [valArg, List.getElem?_set_self hbl, objBase]
+  rw [call_eq T _ p _ hp2, callConv_geo_enu T _ _ rfl _ _ hb2]
+  rfl
+
+/-- T14 The local coordinates of the base itself are (0,0,0) also when point and base are *the same object*
+(`b.toENUCoords(b)`), for a `GeoCoords` and for an `ECEFCoords`. -/
+theorem alias_base_is_origin (T : Trig ℝ) (w : World ℝ) (i : Nat) (o : Obj ℝ) (ho : w.heap[i]? = some o)
+    (hk : o.kind ≠ .enu) :
+    w.call T i .enu [.ref i] = .ok { w with heap := w.heap ++ [⟨.enu, ⟨0, 0, 0⟩⟩] } := by
+  rw [call_eq T w i o ho, callConv_self T w.heap i o ho hk]
+  rfl
+
+/-- T15 The whole-track conversions on the heap (`Track.toECEFCoords/toENUCoords/toGeoCoords/toProjCoords/toENUCoordsIfNeeded` with
+`getSRID()`, the default base, `Track.base`, the per-position dispatch and the rebinding of positions and base) simulate
+the pure `Track` model of `Model/Geo.lean` that T8/T9 are about: for a track whose positions all have the class of the
+first one (`Abs`: the pure track is what the heap-level track holds *now*, bases read by value), the heap-level
+conversion and the pure one fail with the same error, or both succeed and the new heap-level track holds the new pure
+track. (`arg'` is `arg` read through the heap: `None`, an SRID, or the current value of a `GeoCoords`/`ECEFCoords`.) -/
+theorem track_heap_simulation (T : Trig ℝ) (w : World ℝ) (ti : Nat) (t : HTrack) (ht : w.tracks[ti]? = some t)
+    (a : Track ℝ) (hA : Abs w.heap t a) (arg : Val) (arg' : Option (BaseArg ℝ)) (harg : valArg w.heap arg = some arg')
+    (srid : Nat) :
+    SimRes ti (w.trackToENU T ti arg) (a.toENU T arg')
+    ∧ SimRes ti (w.trackToGeo T ti arg) (a.toGeo T arg')
+    ∧ SimRes ti (w.trackToECEF T ti arg) (a.toECEF T arg')
+    ∧ SimRes ti (w.trackToProj T ti srid) (a.toProj T srid)
+    ∧ SimRes ti (w.trackToENUIfNeeded T ti) (a.toENUIfNeeded T) :=
+  ⟨trackToENU_sim T w ti t ht a hA arg arg' harg, trackToGeo_sim T w ti t ht a hA arg arg' harg,
+   trackToECEF_sim T w ti t ht a hA arg arg' harg, trackToProj_sim T w ti t ht a hA srid,
+   trackToENUIfNeeded_sim T w ti t ht a hA⟩
+
+/-- T15' `Track.toENUCoordsIfNeeded()` on a Geo track is `Track.toENUCoords()` without argument (base = the first
+observation, T8), on any other non-empty track it does nothing. -/
+theorem track_enu_if_needed (T : Trig ℝ) (t : Track ℝ) (p : V3 ℝ) (ps : List (V3 ℝ)) (hp : t.pts = p :: ps) :
+    (t.kind = .geo → t.toENUIfNeeded T = t.toENU T none) ∧ (t.kind ≠ .geo → t.toENUIfNeeded T = .ok t) := by
+  obtain ⟨k, pts, base⟩ := t
+  simp only at hp
+  subst hp
+  constructor
+  · intro hk; simp only at hk; subst hk; rfl
+  · intro hk; simp only at hk; cases k <;> first | exact absurd rfl hk | rfl
+
+/-- T16 What `Track.toENUCoords` leaves in the track is new: the positions and `Track.base` are objects that did not
+exist before the call (or `Track.base` is the SRID number) — the recorded base is a copy (`base.toGeoCoords()`), never the
+caller's object — and no older object was touched. -/
+theorem track_enu_rebinds_fresh (T : Trig ℝ) (w w' : World ℝ) (ti : Nat) (arg : Val)
+    (h : w.trackToENU T ti arg = .ok w') :
+    (∃ t', w'.tracks[ti]? = some t' ∧ FreshFrom w.heap.length t') ∧ ∃ l, w'.heap = w.heap ++ l :=
+  ⟨trackToENU_fresh T w w' ti arg h, trackToENU_frame T w w' ti arg h⟩
+
+/-- T17 The record survives the caller: a Geo track goes to ENU about the caller's `GeoCoords` object `b`; the caller
+then updates in place *any* object that existed before that conversion (his base object `b` in particular); the track
+comes back with `toGeoCoords()` and no argument. All three calls succeed and every position is its own Geo → ECEF → Geo
+image (T4, T5, T5'), `Track.base` still being the base as it was when it was used. -/
+theorem track_round_trip_survives_update (T : Trig ℝ) (hT : Pyth T) (w : World ℝ) (ti : Nat) (t : HTrack)
+    (ht : w.tracks[ti]? = some t) (pts : List (V3 ℝ)) (hne : pts ≠ []) (ab : Option (BaseArg ℝ))
+    (hA : Abs w.heap t ⟨.geo, pts, ab⟩) (b : Nat) (c : V3 ℝ) (hb : w.heap[b]? = some ⟨.geo, c⟩)
+    (j k : Nat) (x : ℝ) (hj : j < w.heap.length) :
+    ∃ w1 w2 w3 t3, w.trackToENU T ti (.ref b) = .ok w1 ∧ w1.set j k x = .ok w2 ∧ w2.trackToGeo T ti .none = .ok w3 ∧
+      w3.tracks[ti]? = some t3 ∧
+      Abs w3.heap t3 ⟨.geo, pts.map (fun g => ecefToGeo T (geoToEcef T g)), some (.pt (.geo c))⟩ :=
+  track_round_trip_survives_update' T hT w ti t ht pts hne ab hA b c hb j k x hj
+
 /-! ### the hypotheses are satisfiable by ordinary inputs -/
 
 /-- Notre-Dame de Paris on the ellipsoid comes back exactly through ECEF, and through the local frame of a base in Lyon
@@ -193,5 +355,23 @@ example : ((⟨.ecef, [⟨4201000, 168000, 4780000⟩, ⟨4201010, 168020, 47800
 /-- a point of the Lambert-93 domain satisfies the hypotheses of T11 -/
 example : (fromLambert93 realTrig (toLambert93 realTrig ⟨2.35, 48.853, 35⟩)).x = 2.35 :=
   (lambert_round_trip _ (by norm_num) (by norm_num) (by norm_num) (by norm_num)).1
+
+/-- a point at 8848 m satisfies the hypotheses of T5' -/
+example : (ecefToGeo realTrig (geoToEcef realTrig ⟨86.925, 27.988, 8848⟩)).x = 86.925 := by
+  rw [(geo_ecef_geo_residual ⟨86.925, 27.988, 8848⟩ (by norm_num) (by norm_num) (by norm_num) (by norm_num) (by norm_num)).1]
+
+/-- a world with one Geo position (object 0), the caller's base (object 1) and a track holding object 0: the track goes to
+ENU about object 1, the caller moves object 1 up by 1588 m, the track comes back (hypotheses of T17 with `j = b = 1`) -/
+example : ∃ w1 w2 w3 t3,
+    (⟨[⟨.geo, ⟨5.7245, 45.1885, 212⟩⟩, ⟨.geo, ⟨5.72, 45.19, 212⟩⟩], [⟨[0], .none⟩]⟩ : World ℝ).trackToENU realTrig 0 (.ref 1) = .ok w1
+    ∧ w1.set 1 2 1800 = .ok w2 ∧ w2.trackToGeo realTrig 0 .none = .ok w3 ∧ w3.tracks[0]? = some t3
+    ∧ Abs w3.heap t3 ⟨.geo, [ecefToGeo realTrig (geoToEcef realTrig ⟨5.7245, 45.1885, 212⟩)], some (.pt (.geo ⟨5.72, 45.19, 212⟩))⟩ :=
+  track_round_trip_survives_update realTrig pyth_realTrig _ 0 ⟨[0], .none⟩ rfl [⟨5.7245, 45.1885, 212⟩] (by simp) none
+    ⟨⟨[⟨.geo, ⟨5.7245, 45.1885, 212⟩⟩], rfl, by simp, rfl⟩, rfl⟩ 1 ⟨5.72, 45.19, 212⟩ rfl 1 2 1800 (by simp)
+
+/-- the same object as point and base (hypotheses of T14) -/
+example : (⟨[⟨.geo, ⟨2.35, 48.853, 35⟩⟩], []⟩ : World ℝ).call realTrig 0 .enu [.ref 0]
+    = .ok ⟨[⟨.geo, ⟨2.35, 48.853, 35⟩⟩, ⟨.enu, ⟨0, 0, 0⟩⟩], []⟩ :=
+  alias_base_is_origin realTrig _ 0 _ rfl (by simp)
 
 end TV.C14
